@@ -301,7 +301,13 @@ Lemma outcome_iff e :
    | RErr, _ => [(root_shape (e_payload e), KErrMissing)]
    | _, ObErr => [(root_shape (e_payload e), KErrSpurious)]
    | RConsumed, _ | _, ObConsumed => [(0%N, KConsumed)]
-   | _, ObSame => [(0%N, KSame)]
+   | ROut m, ObSame =>
+       (* the very event came back although the model forwards a filtered copy: not "the same event is due" (C10) only - whatever the
+          model protects left in plaintext (C09) *)
+       (0%N, KSame) :: (match e_payload e with
+                        | PVal _ x => if forallb (fun c => N.eqb c 0 || memN c (canaries m)) (canaries x) then [] else [(root_shape (e_payload e), KLeak)]
+                        | _ => []
+                        end)
    end) = [] <-> outcome_ok e.
 Proof.
   unfold outcome_ok. destruct (model_result e) as [| | |m]; destruct (e_obs e) as [| | | |o fl]; try (split; [discriminate|contradiction]); try (split; auto; fail).
